@@ -4,20 +4,54 @@ mod choices;
 mod mmr;
 mod runner;
 mod sim;
+mod stream;
 
 use std::path::PathBuf;
 use std::sync::Arc;
 
 use sim::{Scenario, Tier};
 
+/// Tracks the largest single allocation per thread so that a count field that drives an allocation
+/// is reported by the oracle instead of killing the process.
+struct TrackingAlloc;
+unsafe impl std::alloc::GlobalAlloc for TrackingAlloc {
+    unsafe fn alloc(&self, l: std::alloc::Layout) -> *mut u8 {
+        if l.size() >= (64 << 20) {
+            let _ = stream::MAX_ALLOC.try_with(|m| {
+                if l.size() > m.get() {
+                    m.set(l.size())
+                }
+            });
+        }
+        unsafe { std::alloc::System.alloc(l) }
+    }
+    unsafe fn dealloc(&self, p: *mut u8, l: std::alloc::Layout) {
+        unsafe { std::alloc::System.dealloc(p, l) }
+    }
+    unsafe fn realloc(&self, p: *mut u8, l: std::alloc::Layout, n: usize) -> *mut u8 {
+        if n >= (64 << 20) {
+            let _ = stream::MAX_ALLOC.try_with(|m| {
+                if n > m.get() {
+                    m.set(n)
+                }
+            });
+        }
+        unsafe { std::alloc::System.realloc(p, l, n) }
+    }
+}
+#[global_allocator]
+static GLOBAL: TrackingAlloc = TrackingAlloc;
+
+
 fn scenarios_for(id: &str) -> Vec<Arc<dyn Scenario>> {
     match id {
         "C20" => vec![Arc::new(mmr::Mmr)],
+        "C03" => vec![Arc::new(stream::Stream), Arc::new(stream::Enc)],
         _ => vec![],
     }
 }
 
-const ALL: &[&str] = &["C20"];
+const ALL: &[&str] = &["C03", "C20"];
 
 fn usage() -> ! {
     eprintln!("usage: zsim <ID> [--tier quick|thorough] [--seed N] [--runs N] [--budget S] [--workers N] [--no-evidence]\n       zsim replay <file> [--quiet]\n       zsim selftest determinism [--n N]");
